@@ -214,6 +214,10 @@ class packet_base (object):
         if self.next == None:
             return self.hdr(b'')
         elif isinstance(self.next, packet_base):
+            # The payload is packed as part of *this* packet: make sure it
+            # looks at us for its pseudo header even if it has meanwhile
+            # also been set as the payload of another header.
+            self.next.prev = self
             rest = self.next.pack()
         elif isinstance(self.next, str):
             rest = self.next.encode()
